@@ -155,6 +155,25 @@ func (o *C09) Check(x *h.Exec, ev *h.Event) {
 			// traversals written under a reference constraint with an address are
 			// declarations of their own; where they are attached is left open
 			addrRef := map[string]bool{}
+			// (by attribute name wherever the schema declares such a constraint:
+			// the content of dynamic blocks is not walked by the model, and static
+			// and dependent bodies may declare one name differently)
+			addrRefNames := map[string]bool{}
+			collectAddrRefNames(p.Spec.Schema, addrRefNames, 0)
+			for _, f := range p.Files {
+				rd := f.Rendered
+				world.WalkItems(f.Spec.Items, func(it *world.Item, d int) {
+					if it.Attr == nil || !addrRefNames[it.Attr.Name] {
+						return
+					}
+					it.Attr.Expr.Walk(func(e *world.Expr) {
+						if e.ID > 0 && e.ID < len(rd.Nodes) && rd.Nodes[e.ID] != nil {
+							sp := rd.Nodes[e.ID].Range
+							addrRef[fmt.Sprintf("%s|%d-%d", f.Name, sp.Start, sp.End)] = true
+						}
+					})
+				})
+			}
 			for _, f := range p.Files {
 				rd := f.Rendered
 				model.Walk(p.Spec.Schema, f.Spec.Items, func(mc *model.Ctx) {
@@ -356,6 +375,23 @@ func (o *C09) Check(x *h.Exec, ev *h.Event) {
 				}
 			}
 			x.Sample(3, "path %s: %d top-level targets, %d addressable declarations matched", p.Path.Path, len(got), len(allowed))
+		}
+	}
+}
+
+func collectAddrRefNames(b *world.BodySpec, out map[string]bool, depth int) {
+	if b == nil || depth > 12 {
+		return
+	}
+	for _, a := range b.Attrs {
+		if consHasAddrRef(a.Cons) {
+			out[a.Name] = true
+		}
+	}
+	for _, bl := range b.Blocks {
+		collectAddrRefNames(bl.Body, out, depth+1)
+		for _, d := range bl.Dep {
+			collectAddrRefNames(d.Body, out, depth+1)
 		}
 	}
 }
